@@ -468,6 +468,8 @@ func c06(c *Ctx) (*report.Result, error) {
 	checkClientRecvLimit(c, res, "O6.14")
 	res.RuleDoc["O6.15"] = "the translating stream wrapper never withholds a message: every path of streamTranslator.SendMsg / RecvMsg reaches the underlying ServerStream's method (a translator's error is logged, the message is relayed as it is)"
 	checkStreamTranslatorForwards(c, res, "O6.15")
+	res.RuleDoc["O6.19"] = "an unreachable source ends the relay at once: no call option of the module asks gRPC to wait for a ready connection (same analysis as O11.9) - with wait-for-ready on streams, StreamForwarder.Run blocks in the stream open while no session exists, before its workers start: the handler does not return and the initiator keeps a healthy-looking stream with nobody behind it"
+	checkNoWaitForReady(c, res, "O6.19")
 	res.RuleDoc["O6.18"] = "a source side that fails silently still ends the relay: both yamux session factories hand yamux a config with keep-alive enabled (same analysis as O10.12) - over the mux transport the keep-alive is the only thing that closes a session whose peer stopped answering without a FIN; without it both forwarder goroutines stay in Recv, the initiator keeps a half-open stream and the remote proxy keeps its source stream"
 	checkYamuxKeepAlive(c, res, "O6.18")
 	res.RuleDoc["O6.17"] = "a forwarder's workers wait only on things that end with their own stream: every blocking channel operation in admin_stream_transfer.go (and in the forwarder methods its workers call) is a select with an arm on the stream's latch, a context's Done() or a timer, a bare receive from such a channel, or a bare send on a one-shot buffered channel made in the enclosing function - a wait on anything else (a process-wide semaphore) parks the worker beyond the reach of the latch, so the two directions no longer end together, and couples unrelated streams"
